@@ -14,7 +14,7 @@ import time
 
 PROPERTY = 'C17'
 LEVEL = 'model_checking'
-BUDGET_S = {'quick': 900, 'thorough': 7200}
+BUDGET_S = {'quick': 3600, 'thorough': 14400}
 
 from . import ctxgrid as G
 
